@@ -71,10 +71,17 @@ ASSUMPTIONS = [
     'as the pickle arguments, the model rebuilds slot-wise (unset stays unset; for Chemical every slot through '
     'getattr(..., None)), the answer is compared with the slots of the really unpickled object (values by a '
     'fingerprint: primitives by repr, model objects by type and sample evaluations at T, at (phase, T, P) for liquid, gas and solid, and at (T, P)); CompiledChemicals: chemicals with '
-    'the names they answer to and the groups go to the model, the index of every name is compared after the round trip',
+    'the names they answer to and the groups go to the model, the index of every name is compared after the round trip (with the model and with the original object); chemical '
+    'groups (members of different MW, defined by mole and with wt=True) are compared as stored (by mole and by weight, '
+    '1e-12) and as used: a scalar written through the group key by mole and by mass on the original and on the '
+    're-loaded object gives the members the same flows — for CompiledChemicals, Thermo and every pickled stream of a '
+    'package with groups (packages A and C carry groups)',
     'after every operation the oracle also checks, on the real objects, that (i) ID-keyed access (imol[ID], '
     'imol[phase, ID], imol[phase, IDs]) agrees with the raw flow data of every stream, visiting the streams in both '
-    'orders, and (ii) pairwise sharing of flow data / phase container / thermal condition / factor dict / equations (view cache: never more) is exactly what the links, '
+    'orders, (iii) the flows of every stream read by mass (imass[phase, ID], F_mass) are its molar flows times MW and, for the '
+    'operands, read by volume (ivol) are what a fresh copy reports — the mass / volume views are requested after every '
+    'operation, so every operation meets views built before it (a stale or raising view is an oracle failure), '
+    'and (ii) pairwise sharing of flow data / phase container / thermal condition / factor dict / equations (view cache: never more) is exactly what the links, '
     'proxies, flow proxies and unlinks of the history advertise',
     'Python pickle protocol itself is trusted; only __reduce__ / from_data / set_data are modelled; pickling of '
     'Reaction / ParallelReaction / Chemical / Thermo is checked by the oracle on the real objects (observable state '
@@ -83,7 +90,7 @@ ASSUMPTIONS = [
     'different session default package (settings.set_thermo) at dumps time — the object\'s own package, the current '
     'one, or another — and at loads time, and compared with the original (flows, phases, T, P, price, factors, '
     'package, chemical IDs, Gamma); the default is restored afterwards (oracle on the real code only)',
-    'the model has the behaviour WITH the patches fixes_proposed/C13-1 ... C13-13 (C13-13: unlink takes a private copy '
+    'the model has the behaviour WITH the patches fixes_proposed/C13-1 ... C13-14 (C13-14: user aliases travel with a pickled CompiledChemicals; C13-13: unlink takes a private copy '
     'of the characterization-factor dict and of the equations object); on a tree without them the oracle '
     'reports the corresponding failures and the case ends at the failing operation',
     'the session defaults used by the cross-session pickle probes are a function of the protocol line and the state '
@@ -119,6 +126,11 @@ def setup():
     for k, names in PKG_DEF.items():
         TH[k] = tmo.Thermo(tmo.Chemicals([chems[n] for n in names], cache=True))
         PKGS[k] = [CAS_ID[c] for c in TH[k].chemicals.CASs]
+    # chemical groups on two of the packages (members of different molecular weight; by mole and by weight): they
+    # travel with every pickled stream of these packages
+    TH['A'].chemicals.define_group('Alc', ['Ethanol', 'Methanol'], composition=[0.25, 0.75])
+    TH['C'].chemicals.define_group('AlcW', ['Ethanol', 'Methanol', 'Octane'], composition=[0.25, 0.5, 0.25], wt=True)
+    TH['C'].chemicals.define_group('Pair', ['Water', 'Octane'])
     tmo.settings.set_thermo(TH['A'])
     # objects for the non-stream pickles
     import thermosteam.reaction as rxn
@@ -146,8 +158,14 @@ def setup():
     cc = tmo.Chemicals([wtr, e, tmo.Chemical('Methanol'), y]); cc.compile()
     cc.set_alias('Water', 'H2O_x')
     cc.define_group('Alcohols', ['Ethanol', 'Methanol'], composition=[0.25, 0.75])
+    cc.define_group('AlcoholsW', ['Ethanol', 'Methanol', 'Water'], composition=[0.25, 0.5, 0.25], wt=True)
+    cc.define_group('Both', ['Water', 'Ethanol'])
     cc2 = tmo.Chemicals([tmo.Chemical('Methanol'), tmo.Chemical('Water')]); cc2.compile(); cc2.set_alias('Methanol', 'MeOH_x')
-    EXTRA['cchems'] = [cc, cc2, TH['C'].chemicals]
+    # a user alias that is also a name two chemicals claim (their formula): compile() alone would drop it
+    cc3 = tmo.Chemicals([tmo.Chemical('Propanol'), tmo.Chemical('Isopropanol'), tmo.Chemical('Water')]); cc3.compile()
+    cc3.set_alias('Propanol', 'C3H8O')
+    cc3.define_group('Propanols', ['Propanol', 'Isopropanol'], composition=[0.125, 0.875], wt=True)
+    EXTRA['cchems'] = [cc, cc2, TH['C'].chemicals, cc3, TH['A'].chemicals]
     thcc = tmo.Thermo(cc)
     EXTRA['thermo'] += [thcc, tmo.Thermo(cc2)]
     # non-default activity / fugacity / Poynting models
@@ -375,6 +393,58 @@ class World:
                                                           f'different flows')
 
 
+    def check_massvol(self, op, line, mentioned):
+        """The flows of every stream read BY MASS (`imass`, per phase and chemical, `F_mass`) are its molar flows times
+        the molecular weights, and read BY VOLUME (`ivol`; the operands of the operation) they are what a fresh copy of
+        the stream reports.  The mass / volume views are requested after every operation, so every later operation
+        (copy_like growing the phases, link, unlink, phase change ...) meets views that were built before it."""
+        for j, s in enumerate(self.streams):
+            IDs, MW, cas = tuple(s.chemicals.IDs), s.chemicals.MW, pkg_of(s)
+            keys = [((p, i) if is_multi(s) else i, p, k) for p in phases_of(s) for k, i in enumerate(IDs)]
+            raw = {p: row_dict(s, r) for p, r in zip(phases_of(s), rows_of(s))}
+            try:
+                im = s.imass
+                if is_multi(s) and tuple(im.phases) != phases_of(s):
+                    raise OracleFail(f'{op}:mass-view-phases', f'after `{line}` the flows of stream {j} by mass are indexed over '
+                                                               f'phases {tuple(im.phases)}, the stream has {phases_of(s)}')
+                got = {(p, k): float(im[key]) for key, p, k in keys}
+                total = float(s.F_mass)
+            except OracleFail:
+                raise
+            except Exception as e:
+                raise OracleFail(f'{op}:mass-view-raises-{type(e).__name__}',
+                                 f'after `{line}` reading the flows of stream {j} by mass (imass[phase, ID]) raised {e!r}')
+            want_total = 0.
+            for (p, k), v in got.items():
+                w = raw[p].get(cas[k], 0.) * float(MW[k])
+                want_total += w
+                if not close(v, w, 1e-12, 1e-300):
+                    raise OracleFail(f'{op}:mass-view-values', f'after `{line}` stream {j} reports {v} kg/hr of {IDs[k]} in phase '
+                                                               f'{p!r}, its molar flow times MW is {w}')
+            if not close(total, want_total, 1e-9, 1e-12):
+                raise OracleFail(f'{op}:mass-view-values', f'after `{line}` stream {j} has F_mass {total}, its molar flows give {want_total}')
+            if j not in mentioned: continue
+
+            def vols(x):
+                out = {}
+                iv = x.ivol
+                for key, p, k in keys:
+                    if not raw[p].get(cas[k], 0.): continue
+                    try: out[p, k] = float(iv[key])
+                    except Exception as e: out[p, k] = 'raises ' + type(e).__name__
+                return out
+            try:
+                a = vols(s)
+            except Exception as e:
+                raise OracleFail(f'{op}:vol-view-raises-{type(e).__name__}', f'after `{line}` reading the flows of stream {j} by volume raised {e!r}')
+            b = vols(s.copy())
+            for kk in b:
+                x, y = a[kk], b[kk]
+                if (isinstance(x, str) or isinstance(y, str)) and x != y or \
+                        not isinstance(x, str) and not isinstance(y, str) and not (close(x, y, 1e-12, 1e-300) or (x != x and y != y)):
+                    raise OracleFail(f'{op}:vol-view-values', f'after `{line}` stream {j} reports {x} m3/hr of {IDs[kk[1]]} in phase '
+                                                              f'{kk[0]!r}, a fresh copy of it reports {y}')
+
     def show(self):
         seen = []
 
@@ -501,11 +571,19 @@ def probe_independent(a, others, sig):
     if not rows: return
     ID = a.chemicals.IDs[0]
     key = (phases_of(a)[0], ID) if is_multi(a) else ID
-    for o in others + [a]: o.imass
-    a.imass[key] = float(a.imass[key]) + 1.0
+    try:
+        for o in others + [a]: o.imass
+        a.imass[key] = float(a.imass[key]) + 1.0
+    except Exception as e:
+        restore()
+        raise OracleFail(sig.split(':')[0] + f':mass-view-raises-{type(e).__name__}', f'reading / writing a flow by mass (imass[{key!r}]) raised {e!r}')
     verdict('a flow written through imass')
-    for o in others + [a]: o.imass
-    a.set_flow(float(a.imass[key]) + 2.0, 'kg/hr', key)
+    try:
+        for o in others + [a]: o.imass
+        a.set_flow(float(a.imass[key]) + 2.0, 'kg/hr', key)
+    except Exception as e:
+        restore()
+        raise OracleFail(sig.split(':')[0] + f':mass-view-raises-{type(e).__name__}', f"set_flow(..., 'kg/hr', {key!r}) raised {e!r}")
     verdict("a flow written by set_flow(..., 'kg/hr')")
     try:
         for o in others + [a]: o.ivol
@@ -551,6 +629,7 @@ def apply(W: World, line: str):
                     raise OracleFail(f'{op}:frame', f'stream {j}, not involved in `{line}`, had its {part} rebound')
 
     E = W.exp
+    n_before = len(S)
     was_multi = [is_multi(x) for x in ms]
 
     def finish():
@@ -558,6 +637,7 @@ def apply(W: World, line: str):
         W.check_sharing(op, line)
         W.check_keyed(op, line)
         W.check_views(op, line)
+        W.check_massvol(op, line, mentioned + list(range(n_before, len(S))))
         return 'ok ' + W.show()
 
     if op == 'new':
@@ -864,11 +944,27 @@ def apply(W: World, line: str):
         probe_independent(c, S, f'pickle/{k}:not-independent')
         if [x for x in cond_keyed(c) if x[0] != '*'] != [x for x in cond_keyed(s) if x[0] != '*']:
             raise OracleFail(f'pickle/{k}:keyed-not-equal', 'read by chemical ID the unpickled stream differs from the original')
+        if s.chemicals._group_mol_compositions:
+            W.tags.append('pickle:groups')
+            d = chemicals_differ(s.chemicals, c.chemicals)
+            if d: raise OracleFail(f'pickle/{k}:{d[0]}', f'the chemicals of the unpickled stream: {d[1]}')
+            g0 = sorted(s.chemicals._group_mol_compositions)[0]
+            for view in ('imol', 'imass'):
+                x, y = s.copy(), c.copy()
+                key, keyy = [(phases_of(z)[0], g0) if is_multi(z) else g0 for z in (x, y)]
+                try:
+                    getattr(x, view)[key] = 8.; getattr(y, view)[keyy] = 8.
+                except Exception as e:
+                    raise OracleFail(f'pickle/{k}:group-write-raises', f'{view}[{key!r}] = 8 on a copy of the stream / of the unpickled stream raised {e!r}')
+                if not all(close(p, q, 1e-12, 1e-300) for p, q in zip(x.mol.to_array(), y.mol.to_array())):
+                    raise OracleFail(f'pickle/{k}:group-write', f'{view}[{key!r}] = 8 gives {list(y.mol.to_array())} on the unpickled stream, '
+                                                                f'{list(x.mol.to_array())} on the original')
         # saved in one session, loaded in another: the default property package at dumps time (the stream's own
         # package, or whatever it is now) and at loads time (every other package) must not matter
         def seen(x):
             f = full(x)
-            return (f[0], f[1], f[2], f[4], tuple(x.chemicals.IDs), type(x.thermo.Gamma).__name__ if not isinstance(x.thermo.Gamma, type) else x.thermo.Gamma.__name__)
+            return (f[0], f[1], f[2], f[4], tuple(x.chemicals.IDs), type(x.thermo.Gamma).__name__ if not isinstance(x.thermo.Gamma, type) else x.thermo.Gamma.__name__,
+                    repr({g: (m, [round(v, 11) for v in a_], [round(v, 11) for v in b_]) for g, (m, a_, b_) in groups_state(x.chemicals).items()}))
         ref = seen(s)
         for at_dump, at_load, why in across_sessions(s.thermo, line + repr(before)):
             W.tags.append('pickle:default-swapped')
@@ -877,7 +973,7 @@ def apply(W: World, line: str):
             except Exception as e:
                 raise OracleFail(f'pickle/{k}:other-session-raises-{type(e).__name__}',
                                  f'a stream pickled while {why} could not be unpickled: {e!r}')
-            names2 = ['flows/phases/T/P', 'price', 'characterization_factors', 'package', 'chemical IDs', 'Gamma']
+            names2 = ['flows/phases/T/P', 'price', 'characterization_factors', 'package', 'chemical IDs', 'Gamma', 'groups']
             for n, x, y in zip(names2, got, ref):
                 if x != y:
                     raise OracleFail(f'pickle/{k}:other-session-{n.split("/")[0].replace(" ", "-")}',
@@ -1264,6 +1360,58 @@ def slot_lines(kind, obj, c):
     return line, answer
 
 
+def groups_state(ch):
+    """the chemical groups of a CompiledChemicals: name -> (member IDs, composition by mole, by weight)"""
+    return {g: (tuple(x.ID for x in getattr(ch, g)), [float(v) for v in ch._group_mol_compositions[g]],
+                [float(v) for v in ch._group_wt_compositions[g]]) for g in sorted(ch._group_mol_compositions)}
+
+
+def groups_differ(a, b):
+    """None, or a description of the first difference between two `groups_state`s (compositions: 1e-12 relative)"""
+    if sorted(a) != sorted(b): return f'groups {sorted(b)}, original {sorted(a)}'
+    for g in a:
+        (ma, xa, wa), (mb, xb, wb) = a[g], b[g]
+        if ma != mb: return f'group {g!r} has members {mb}, original {ma}'
+        for name, u, w in (('by mole', xa, xb), ('by weight', wa, wb)):
+            if len(u) != len(w) or any(not close(p, q, 1e-12, 1e-300) for p, q in zip(u, w)):
+                return f'group {g!r} has composition {name} {w}, original {u}'
+    return None
+
+
+def group_writes(ch):
+    """what a scalar written through each group key gives the members, by mole and by mass"""
+    out = {}
+    for g in sorted(ch._group_mol_compositions):
+        im = tmo.indexer.ChemicalMolarFlowIndexer.blank('l', ch)
+        im[g] = 8.
+        out[g, 'imol'] = [float(im[x.ID]) for x in getattr(ch, g)]
+        im = tmo.indexer.ChemicalMolarFlowIndexer.blank('l', ch)
+        im.by_mass()[g] = 8.
+        out[g, 'imass'] = [float(im[x.ID]) for x in getattr(ch, g)]
+    return out
+
+
+def writes_differ(a, b):
+    if sorted(a) != sorted(b): return f'groups written {sorted(b)}, original {sorted(a)}'
+    for k in a:
+        if len(a[k]) != len(b[k]) or any(not close(p, q, 1e-12, 1e-300) for p, q in zip(a[k], b[k])):
+            return f'{k[1]}[{k[0]!r}] = 8 gives the members {b[k]} kmol/hr, on the original {a[k]}'
+    return None
+
+
+def chemicals_differ(orig, new):
+    """group definitions (stored and as used by a write through the group key) of a re-loaded CompiledChemicals"""
+    d = groups_differ(groups_state(orig), groups_state(new))
+    if d: return ('group', d)
+    try:
+        wn = group_writes(new)
+    except Exception as e:
+        return ('group-write-raises', f'writing through a group key on the re-loaded chemicals raised {e!r}')
+    d = writes_differ(group_writes(orig), wn)
+    if d: return ('group-write', d)
+    return None
+
+
 def cchems_lines(obj, c):
     names = {}
 
@@ -1283,11 +1431,10 @@ def cchems_lines(obj, c):
         if v is None: return '-'
         return '|'.join(map(str, v)) if isinstance(v, (list, tuple)) else str(v)
     answer = 'ok ' + ','.join(f'{nid(k)}:{idx(c, k)}' for k in keys)
-    deep = None
-    for g in groups:
-        a = c._group_mol_compositions.get(g)
-        if a is None or list(a) != list(obj._group_mol_compositions[g]):
-            deep = ('group', f'group {g!r} has composition {a}, original {list(obj._group_mol_compositions[g])}')
+    deep = chemicals_differ(obj, c)
+    for k in keys:
+        if idx(c, k) != idx(obj, k):
+            deep = ('name', f'the name {k!r} stands for position {idx(c, k)} after the round trip, for {idx(obj, k)} on the original')
     if tuple(c.IDs) != tuple(obj.IDs): deep = ('IDs', f'{c.IDs} vs {obj.IDs}')
     return line, answer, deep
 
@@ -1327,6 +1474,8 @@ def obj_state(kind, o):
                 'PCF': type(o.PCF).__name__ if not isinstance(o.PCF, type) else o.PCF.__name__,
                 'mixture': type(o.mixture).__name__,
                 'excess': getattr(o.mixture, 'include_excess_energies', None),
+                'groups': repr({g: (m, [round(v, 11) for v in x], [round(v, 11) for v in w]) for g, (m, x, w) in groups_state(o.chemicals).items()}),
+                'group-writes': repr({k: [round(v, 10) for v in l] for k, l in group_writes(o.chemicals).items()}),
                 'H': o.mixture.H('l', [1.] * len(o.chemicals.CASs), 320., 101325.),
                 'H.g': o.mixture.H('g', [1.] * len(o.chemicals.CASs), 400., 101325.)}
     raise ValueError(kind)
